@@ -211,6 +211,24 @@ def rule_TH(ctx, tier):
         rr.ok("pos is the position from the front of the queue, coefficient 1")
     else:
         rr.fail("height-formula:pos", "the queue position enters get_height with coefficient %s (or is not counted from the front)" % aP, where=g.span)
+    # the block looked up is the one asked for: the predicate handed to `position` is equality with the parameter
+    preds = []
+    for x in og.walk(ret):
+        if isinstance(x, tuple) and x and x[0] in ("call", "ret") and x[1].endswith("::position") and x[0] == "call" and len(x[2]) >= 2:
+            preds.append(x[2][1])
+    pred_ok = False
+    for pr in preds:
+        if isinstance(pr, tuple) and pr and pr[0] == "closure" and pr[1] in P.bodies:
+            cb = P.bodies[pr[1]]
+            cret = og.strip(ctx.og.local(cb, 0))
+            if isinstance(cret, tuple) and cret and cret[0] == "call" and cret[1].endswith("::eq") and "PartialEq" in cret[1] and len(cret[2]) == 2:
+                sides = {og.show(og.strip(a)) for a in cret[2]}
+                if sides == {"param#2@%s" % shortfn(cb.id).split("::")[-1], "param#2@get_height"}:
+                    pred_ok = True
+    if pred_ok:
+        rr.ok("the position searched is that of the block hash passed in (closure is `x == block_hash`)")
+    else:
+        rr.fail("height-formula:lookup", "get_height does not look up the position of the block hash it was given (the `position` predicate is not equality between the queue element and the parameter)", where=g.span)
     # ---- init: post-state of new (T = given height, L = S): g = (aT-1)*b + (aL+aS+1)*s + (c-1) must vanish for all b, s
     if aT == 1 and aL + aS == -1 and c == 1:
         rr.ok("right after bootstrap (tip = height of the newest block, blocks.len() = size): formula gives height(front)+pos")
